@@ -1,5 +1,5 @@
 /- Design aid (not part of the library): random simulation of the MCS model with the ghost queue, checking a
-   Boolean transcription of `Mcs.Inv` after every step.  Run: lake env lean --run scratch/McsInvSim.lean [seeds] -/
+   Boolean transcription of `Mcs.Inv` after every step.  Built as the executable `mcsim`: .lake/build/bin/mcsim [seeds] -/
 import CppUtil.Proofs.McsInv
 import CppUtil.Gen.Mcs
 
@@ -13,8 +13,8 @@ def Wc (p : Nat) (x six : Bool) (c : Nat) : Word :=
 
 def allIdx (n : Nat) (f : Nat → Bool) : Bool := (List.range n).all f
 
-def e2B (q : List Grp) (j : Nat) : Bool :=
-  j == 0 || (j == 1 && (match q[0]? with | some G0 => G0.head == none | none => false))
+def e2B (s : St) (q : List Grp) (j : Nat) : Bool :=
+  j == 0 || (j == 1 && (match q[0]? with | some G0 => hmode s G0 == none | none => false))
 
 def phB (s : St) (q : List Grp) (j : Nat) (a : Agent) : Ph → Bool
   | .load0 => true
@@ -32,8 +32,8 @@ def memB (s : St) (q : List Grp) (j : Nat) (G : Grp) (a : Agent) : Bool :=
   | .sSpinNode => match q[j + 1]? with
     | some G' => linked s G' && a.nxt == ofNode G'.node
     | none => false
-  | .held .S => G.head == none
-  | .rel .S ph => G.head == none && phB s q j a ph
+  | .held .S => hmode s G == none
+  | .rel .S ph => hmode s G == none && phB s q j a ph
   | _ => true
 
 def headB (s : St) (ℓ : Nat) (q : List Grp) (j : Nat) (a : Agent) : Bool :=
@@ -42,11 +42,11 @@ def headB (s : St) (ℓ : Nat) (q : List Grp) (j : Nat) (a : Agent) : Bool :=
       (j != 0 || a.cur == 0) && (j == 0 || (match q[j - 1]? with | some Pg => a.cur == grpW Wc s ℓ Pg Pg.node | none => true))
   | .xLink _ => 0 < j && (match q[j - 1]? with | some Pg => ptrOf P a.cur == Pg.node | none => false)
   | .xSpin _ => true
-  | .held .SIX => e2B q j
+  | .held .SIX => e2B s q j
   | .held _ => j == 0
-  | .rel .SIX .load0 => e2B q j
+  | .rel .SIX .load0 => e2B s q j
   | .rel _ ph => j == 0 && phB s q j a ph
-  | .upg .load0 => e2B q j
+  | .upg .load0 => e2B s q j
   | .upg ph => j == 0 && phB s q j a ph
   | .dng ph => j == 0 && phB s q j a ph
   | _ => true
@@ -57,11 +57,11 @@ def lockInvB (s : St) (ℓ : Nat) (q : List Grp) : Option String :=
   else if lockW s ℓ != expLock Wc s ℓ q then some s!"lockWord {lockW s ℓ} vs {expLock Wc s ℓ q}"
   else if !(allIdx q.length fun j => match q[j]? with
       | some G => nodeW s G.node == expNode Wc s ℓ q j G | none => true) then some "nodeWord"
-  else if !(q.all fun G => G.head.isSome || 0 < cnt s ℓ G.node) then some "nonempty"
-  else if !(allIdx q.length fun j => match q[j]? with | some G => j == 0 || G.head.isSome | none => true) then some "laterHeads"
+  else if !(q.all fun G => (hmode s G).isSome || 0 < cnt s ℓ G.node) then some "nonempty"
+  else if !(allIdx q.length fun j => match q[j]? with | some G => j == 0 || (hmode s G).isSome | none => true) then some "laterHeads"
   else if !(allIdx q.length fun j => match q[j]? with
       | some G => (match G.head with
-        | some h => (match s.agents[h]? with
+        | some h => !(hmode s G).isSome || (match s.agents[h]? with
           | some a => a.lk == ℓ && a.qnode == G.node && a.loc.headMode.isSome && headB s ℓ q j a
           | none => false)
         | none => true)
